@@ -642,6 +642,7 @@ func init() {
 		if c.Replay == "" {
 			c06Real(c, NewRng(c.Seed^0xC06A), "C06")
 			c06AgentStart(c, NewRng(c.Seed^0xC06B))
+			c06Awg(c, NewRng(c.Seed^0xC06C))
 			c06Concat(c, NewRng(c.Seed^0xC06B))
 		}
 	}
